@@ -240,6 +240,7 @@ type World struct {
 	TraceOn bool
 	Steps   int
 
+	inflight map[string]*inflightHTTP
 	closed   bool
 	timers   map[int]*tracked
 	timerSeq int
@@ -290,6 +291,9 @@ func (w *World) logf(format string, a ...interface{}) {
 }
 
 func (w *World) trace(format string, a ...interface{}) {
+	if w.Log != nil {
+		w.Log("trace: "+format, a...)
+	}
 	if w.TraceOn {
 		s := fmt.Sprintf("%d ", int64(w.Now())) + fmt.Sprintf(format, a...)
 		w.mu.Lock()
